@@ -260,9 +260,10 @@ def end_to_end(case):
         bld = os.path.join(root, 'build')
         os.makedirs(src)
         open(os.path.join(src, 'm.c'), 'w').write('int main(){return 0;}\n')
+        open(os.path.join(src, 'n.cpp'), 'w').write('int n;\n')
         open(os.path.join(src, 'build.bfg'), 'w').write(
             "project('p')\n"
-            "executable('prog', ['m.c'])\n"
+            "executable('prog', ['m.c', 'n.cpp'])\n"
             "command('showenv', cmd=[%r, 'ID'])\n" %
             os.path.join(BIN, 'rec'))
         args = []
@@ -274,7 +275,24 @@ def end_to_end(case):
                 for k, v, app in case['toolchain']))
             args += ['--toolchain', tc]
         args += case['args']
-        e0 = tool_env({'CC': os.path.join(BIN, 'stubcc')})
+        # the compilers are named either by their paths, or the C compiler by
+        # a bare command name that only the configure-time PATH resolves
+        # (wrappers `gcc` / `g++` around the stubs in a scratch directory) and
+        # the C++ compiler not at all (bfg9000 guesses the sibling `g++`)
+        tools = os.path.join(root, 'tools')
+        os.makedirs(tools)
+        os.makedirs(os.path.join(root, 'emptybin'))
+        for nm, stub in (('gcc', 'stubcc'), ('g++', 'stubcxx')):
+            w = os.path.join(tools, nm)
+            open(w, 'w').write('#!/bin/sh\nexec %s "$@"\n' %
+                               os.path.join(BIN, stub))
+            os.chmod(w, 0o755)
+        if case.get('relcc'):
+            e0 = tool_env({'CC': 'gcc'})
+            e0['PATH'] = tools + ':' + e0['PATH']
+        else:
+            e0 = tool_env({'CC': os.path.join(BIN, 'stubcc'),
+                           'CXX': os.path.join(BIN, 'stubcxx')})
         e0.update(case['e0'])
         rc, out = run(['/venv/bin/bfg9000', 'configure', bld,
                        '--no-resolve-packages', '--backend=make'] + args,
@@ -300,6 +318,8 @@ def end_to_end(case):
         for step in case['later']:
             e1 = tool_env({'CC': '/nonexistent/cc'})
             e1.update(step['e1'])
+            if e1.get('PATH') == '<empty>':
+                e1['PATH'] = os.path.join(root, 'emptybin')
             cwd = {'src': src, 'build': bld, 'root': root}[step['cwd']]
             bdarg = bld if step['abs'] else os.path.relpath(bld, cwd)
             if step['cmd'] == 'regenerate':
@@ -358,11 +378,14 @@ def e2e_cases(ck, n):
                 e1['LDFLAGS'] = '-Lambient'
             if rnd.random() < 0.3:
                 e1['UNRELATED'] = 'changed'
+            if rnd.random() < 0.5:     # a later PATH without the compilers
+                e1['PATH'] = '<empty>'
             later.append({'cmd': rnd.choice(['regenerate', 'lazy', 'env',
                                              'run']),
                           'cwd': rnd.choice(['src', 'build', 'root']),
                           'abs': rnd.random() < 0.5, 'e1': e1})
         cases.append({'toolchain': tc, 'e0': e0, 'later': later,
+                      'relcc': i % 2 == 0,
                       'args': rnd.choice([[], ['--prefix', '/opt/my app'],
                                           ['--disable-shared',
                                            '--enable-static'],
